@@ -12,7 +12,7 @@ from fractions import Fraction as Fr
 from lib.rat import R, F, close, dev
 
 ID = "C02"
-QUICK_N = 320
+QUICK_N = 1200
 THOROUGH_N = 10000
 QUICK_BUDGET_S = 80
 THOROUGH_BUDGET_S = 900
